@@ -143,4 +143,9 @@ class Block2Cache:
                 req.remote.maximum_payload_size,
             )
         else:
+            if req.opt.block2 is None or req.opt.block2.block_number == 0:
+                # This rendering needs no chunking; it supersedes any larger
+                # one that was kept around for the same block key, lest later
+                # blocks be served from the outdated rendering.
+                self._completes.discard(block_key)
             return assembled
